@@ -17,14 +17,21 @@ RULE = ("Model-based history generation: Hypothesis draws a rank-planted problem
         "Network part: histories over a LocalNetwork object (see 'net').")
 ASSUMPTIONS = ["min_x(S') is issued with subsets that numpy confirms to resolve the defect, or with fewer indexes than the defect (certainly insufficient: the answer is an exception, the same for a fresh object); other non-resolving subsets belong to C02/C20",
                "q_bx is never called (AdjEnvelope documents it as not implemented)"]
-REQUIRED_CLASSES = ["kind=adj", "kind=raw", "singular", "evict", "minx_after_q", "reset_after_q", "net.refine", "net.alg_switch", "net.update", "net.free", "svdclass.singular", "svdclass.subset_then_all"]
+REQUIRED_CLASSES = ["kind=adj", "kind=raw", "reused_object", "singular", "evict", "minx_after_q", "reset_after_q", "net.refine", "net.alg_switch", "net.update", "net.free", "svdclass.singular", "svdclass.subset_then_all"]
 
 
 @st.composite
 def history(draw, large=False):
-    case = draw(gen_linear.graph_problem(min_n=10, max_n=22) if large else gen_linear.linear_problem(max_n=9, max_extra=6))
-    n, m = case["n"], case["m"]
     kind = draw(st.sampled_from(["adj", "raw", "raw"]))
+    reuse = kind == "raw" and draw(st.integers(0, 2)) == 0
+    if reuse:
+        # biased to what makes a reused object interesting: both problems singular, default regularisation (the list of all
+        # unknowns is then generated inside the solver and must follow the size of the input)
+        kw = {"singular_only": draw(st.booleans()), "minx_mode": draw(st.sampled_from([None, "none", "none"]))}
+        case = draw(gen_linear.graph_problem(min_n=10, max_n=22, **kw) if large else gen_linear.linear_problem(max_n=9, max_extra=6, **kw))
+    else:
+        case = draw(gen_linear.graph_problem(min_n=10, max_n=22) if large else gen_linear.linear_problem(max_n=9, max_extra=6))
+    n, m = case["n"], case["m"]
     alg = draw(st.sampled_from(ALGS))
     nops = draw(st.integers(1, 30))
     ops = []
@@ -48,7 +55,13 @@ def history(draw, large=False):
             ops.append([op, draw(st.sampled_from(ALGS))])
         else:
             ops.append([op])
-    return {"problem": case, "kind": kind, "alg": alg, "ops": ops}
+    h = {"problem": case, "kind": kind, "alg": alg, "ops": ops}
+    if reuse:
+        # the object has adjusted another problem (other sizes, other defect) before it is given this one - what LocalNetwork
+        # does with its solver when points are removed between two adjustments
+        h["prelude"] = {"problem": draw(gen_linear.linear_problem(max_n=9, max_extra=6, minx_mode="none", singular_only=draw(st.booleans()))),
+                        "queries": draw(st.lists(st.sampled_from(["x", "defect", "rtr", "qxx 1 1", "r"]), min_size=1, max_size=3))}
+    return h
 
 
 def minx_opt(S):
@@ -114,10 +127,21 @@ def oracle(h, stats):
     # regularisation state of the model
     S = None if case["minx"] is None else list(case["minx"])
     S0 = S
-    script = [gen_linear.script_problem(case)]
-    script.append("new 0 %s %s" % (kind, alg))
     plan = []           # (op, index of history answer, index of fresh answer, S at that time, alg)
-    idx = 1             # answers: [0] = new
+    pre = h.get("prelude")
+    if pre:
+        stats.label("reused_object")
+        script = [gen_linear.script_problem(pre["problem"]), "new 0 %s %s" % (kind, alg)]
+        script += ["0 " + q for q in pre["queries"]]
+        script += [gen_linear.script_problem(case).rstrip("\n"), "0 reset"]
+        idx = 1 + len(pre["queries"]) + 2
+        if case["minx"] is not None:
+            script.append("0 minx %d %s" % (len(case["minx"]), " ".join(map(str, case["minx"]))))
+            idx += 1
+    else:
+        script = [gen_linear.script_problem(case)]
+        script.append("new 0 %s %s" % (kind, alg))
+        idx = 1             # answers: [0] = new
     cur_alg = alg
     skipped = 0
     refs = {}
